@@ -270,9 +270,11 @@ Section TotalForce.
           let ax := dz_axis gr (Some g2) axis in
           let an := dz_axis_norm gr (Some g2) in
           let x := dz_value gm gr (Some g2) axis in
+          (* repaired gradients (/repo "fix: distanceZ with ref2 gave ref and ref2 each other's gradient"):
+             dx/dref = (ref - main + x axis)/|ref2-ref|, dx/dref2 = (main - ref2 - x axis)/|ref2-ref| *)
           fadd (gapply gm ax fc)
-            (fadd (gapply gr (vscale (one / an) (vsub (vsub (gcom gm) (gcom g2)) (vscale x ax))) fc)
-                  (gapply g2 (vscale (one / an) (vadd (vsub (gcom gr) (gcom gm)) (vscale x ax))) fc))
+            (fadd (gapply gr (vscale (one / an) (vadd (vsub (gcom gr) (gcom gm)) (vscale x ax))) fc)
+                  (gapply g2 (vscale (one / an) (vsub (vsub (gcom gm) (gcom g2)) (vscale x ax))) fc))
       | CDistanceXY gm gr None axis _ =>
           let x := dxy_value gm gr None axis in
           let dvo := dxy_ortho gm gr None axis in
